@@ -38,6 +38,11 @@ func c08Shapes(b, call string) map[string]string {
 		"set-compr":     "cs := { 1 | " + call + " }\n      count(cs) >= 0",
 		"negated":       "not c08_absent\n      " + call,
 		"every":         "every i in [1] { i > 0; " + call + " }",
+		// a future keyword used as an ordinary identifier: the module does not even parse with the keywords imported -
+		// the profile must still be rejected (for whatever reason), never compiled some other way
+		"kw-every-var": "every := count([1])\n      " + call,
+		"kw-in-var":    "in := count([1])\n      " + call,
+		"kw-if-var":    "if := count([1])\n      " + call,
 	}
 	if b != "walk" {
 		fn := b
@@ -77,19 +82,22 @@ func c08Positions(body string) map[string]string {
 	code := body + "\n$result = (count([1]) > 5)"
 	blk := func(n int) string { return indent(code, n) }
 	return map[string]string{
-		"inline-rego":      c08Profile("P", "    rego: |\n"+blk(6)+"\n", ""),
-		"regoModule":       c08Profile("P", "    regoModule: |\n"+blk(6)+"\n", ""),
-		"code-message":     c08Profile("P", "    rego:\n      message: custom\n      code: |\n"+blk(8)+"\n", ""),
-		"under-property":   c08Profile("P", "    propertyConstraints:\n      ex.name:\n        rego: |\n"+blk(10)+"\n", ""),
-		"under-nested":     c08Profile("P", "    propertyConstraints:\n      ex.child:\n        nested:\n          rego: |\n"+blk(12)+"\n", ""),
+		"inline-rego":       c08Profile("P", "    rego: |\n"+blk(6)+"\n", ""),
+		"regoModule":        c08Profile("P", "    regoModule: |\n"+blk(6)+"\n", ""),
+		"code-message":      c08Profile("P", "    rego:\n      message: custom\n      code: |\n"+blk(8)+"\n", ""),
+		"under-property":    c08Profile("P", "    propertyConstraints:\n      ex.name:\n        rego: |\n"+blk(10)+"\n", ""),
+		"under-nested":      c08Profile("P", "    propertyConstraints:\n      ex.child:\n        nested:\n          rego: |\n"+blk(12)+"\n", ""),
 		"under-nested-prop": c08Profile("P", "    propertyConstraints:\n      ex.child:\n        nested:\n          propertyConstraints:\n            ex.name:\n              rego: |\n"+blk(16)+"\n", ""),
-		"under-and":        c08Profile("P", "    and:\n      - propertyConstraints:\n          ex.name:\n            minCount: 1\n      - rego: |\n"+blk(10)+"\n", ""),
-		"under-or-not":     c08Profile("P", "    or:\n      - not:\n          rego: |\n"+blk(12)+"\n      - propertyConstraints:\n          ex.name:\n            minCount: 1\n", ""),
-		"under-if":         c08Profile("P", "    if:\n      rego: |\n"+blk(8)+"\n    then:\n      propertyConstraints:\n        ex.name:\n          minCount: 1\n", ""),
-		"under-atLeast":    c08Profile("P", "    propertyConstraints:\n      ex.child:\n        atLeast:\n          count: 1\n          validation:\n            rego: |\n"+blk(14)+"\n", ""),
-		"helper-called":    c08Profile("P", "    rego: |\n      c08_helper(1)\n      $result = false\n", "c08_helper(x) {\n"+indent(body, 2)+"\n}"),
-		"helper-unused":    c08Profile("P", "    propertyConstraints:\n      ex.name:\n        minCount: 1\n", "c08_helper(x) {\n"+indent(body, 2)+"\n}"),
-		"helper-rule":      c08Profile("P", "    propertyConstraints:\n      ex.name:\n        minCount: 1\n", "c08_value = R {\n"+indent(body, 2)+"\n}"),
+		"under-and":         c08Profile("P", "    and:\n      - propertyConstraints:\n          ex.name:\n            minCount: 1\n      - rego: |\n"+blk(10)+"\n", ""),
+		"under-or-not":      c08Profile("P", "    or:\n      - not:\n          rego: |\n"+blk(12)+"\n      - propertyConstraints:\n          ex.name:\n            minCount: 1\n", ""),
+		"under-then":        c08Profile("P", "    if:\n      propertyConstraints:\n        ex.name:\n          minCount: 1\n    then:\n      rego: |\n"+blk(8)+"\n", ""),
+		"under-else-only":   c08Profile("P", "    if:\n      propertyConstraints:\n        ex.name:\n          minCount: 1\n    then:\n      propertyConstraints:\n        ex.name:\n          maxCount: 3\n    else:\n      rego: |\n"+blk(8)+"\n", ""),
+		"under-else-or":     c08Profile("P", "    if:\n      propertyConstraints:\n        ex.name:\n          minCount: 1\n    then:\n      propertyConstraints:\n        ex.name:\n          maxCount: 3\n    else:\n      or:\n        - propertyConstraints:\n            ex.name:\n              minCount: 2\n        - propertyConstraints:\n            ex.child:\n              nested:\n                rego:\n                  message: custom\n                  code: |\n"+blk(20)+"\n", ""),
+		"under-if":          c08Profile("P", "    if:\n      rego: |\n"+blk(8)+"\n    then:\n      propertyConstraints:\n        ex.name:\n          minCount: 1\n", ""),
+		"under-atLeast":     c08Profile("P", "    propertyConstraints:\n      ex.child:\n        atLeast:\n          count: 1\n          validation:\n            rego: |\n"+blk(14)+"\n", ""),
+		"helper-called":     c08Profile("P", "    rego: |\n      c08_helper(1)\n      $result = false\n", "c08_helper(x) {\n"+indent(body, 2)+"\n}"),
+		"helper-unused":     c08Profile("P", "    propertyConstraints:\n      ex.name:\n        minCount: 1\n", "c08_helper(x) {\n"+indent(body, 2)+"\n}"),
+		"helper-rule":       c08Profile("P", "    propertyConstraints:\n      ex.name:\n        minCount: 1\n", "c08_value = R {\n"+indent(body, 2)+"\n}"),
 	}
 }
 
@@ -126,7 +134,7 @@ func sampleArg(t types.Type) string {
 
 func C08(e *core.Env) {
 	res := e.Res
-	res.Rule = "cases = (dangerous built-in, embedding position, call shape, debug flag): 5 built-ins x 13 positions (inline rego, regoModule, code/message form, under a property path, under nested, nested + property, and / or+not / if / atLeast, rego_extensions helper called / unused / as a complete rule) x up to 7 call shapes (statement, array and set comprehension, after a negation, every, nested as an argument, function value of a `with`) x debug in {false, true}; each profile must be rejected by CompileProfile and by Validate, with zero outbound HTTP attempts (recording transport); exhaustive over the listed sets; " +
+	res.Rule = "cases = (dangerous built-in, embedding position, call shape, debug flag): 5 built-ins x 16 positions (inline rego, regoModule, code/message form, under a property path, under nested, nested + property, and / or+not / if / then / else only / else + or + nested code-message / atLeast, rego_extensions helper called / unused / as a complete rule) x up to 10 call shapes (statement, array and set comprehension, after a negation, every, nested as an argument, function value of a `with`, after a future keyword used as a variable name - where any rejection counts) x debug in {false, true}; each profile must be rejected by CompileProfile and by Validate, with zero outbound HTTP attempts (recording transport); exhaustive over the listed sets; " +
 		"plus one well-typed probing profile per built-in of the linked engine (187): the set rejected as unsafe must equal the deny-list read from the source; non-trivial = every case; distinct by (built-in, position, shape, debug)"
 	var hits int64
 	http.DefaultTransport = recordingTransport{&hits}
@@ -177,7 +185,7 @@ func C08(e *core.Env) {
 						replay["report"] = core.Trunc(out, 800)
 						replay["outbound_http_attempts"] = atomic.LoadInt64(&hits)
 						res.Violate("impl-violates-property", fmt.Sprintf("a profile calling %s (%s, %s, debug=%v) is accepted", b, pos, s, debug), replay)
-					} else if !strings.Contains(cerr.Error(), "unsafe") {
+					} else if !strings.Contains(cerr.Error(), "unsafe") && !strings.HasPrefix(s, "kw-") {
 						// rejected, but for another reason: the probe is not doing its job
 						replay["error"] = core.Trunc(cerr.Error(), 600)
 						replay["no_failing_input_found"] = true
